@@ -42,11 +42,15 @@ def run(ctx):
         ctx.oblige("run:explorer", False, "exit %d: %s" % (rc, out[-600:]))
     sets, skips = {}, []
     rejected_sets = 0
+    amap_states = amap_sets = 0
     if os.path.exists(ops):
         for line in open(ops):
             if line.startswith(("set ", "mset ")):
                 _, sid, spec = line.rstrip("\n").split(" ", 2)
                 sets[sid] = spec
+            elif line.startswith("amap "):
+                w = line.split()
+                amap_states += int(w[2]); amap_sets += int(w[2]) > 0
             elif line.startswith("skip "):
                 skips.append(line.rstrip("\n")[5:160])
                 # every generated set is well-formed by construction (pairwise different token rules, no token
@@ -99,6 +103,17 @@ def run(ctx):
         if len(samples) < 5 and (nsets % 7 == 1):
             samples.append({"case": cid, "tokenset": spec[:200], "result": kv})
     ctx.oblige("corr:lexScan=generated-lexer", tot["corrbad"] == 0, "%d strings differ" % tot["corrbad"])
+    if not ctx.replay:
+        # structural measure (independent of names in parser.c): token-soup sets with >= 8 one-character tokens, all valid in
+        # the one parse state, reach render.rs' threshold for the ADVANCE_MAP table; the textual count is reported next to it
+        import re as _re
+        def one_char(tok):
+            ast = tok.split(",", 2)[-1]
+            return bool(_re.fullmatch(r"L[0-9a-f]+", ast)) or bool(_re.fullmatch(r"C0:([0-9a-f]+)-\1", ast))
+        big = sum(1 for sid, sp in sets.items() if sp.startswith("w") and sum(one_char(t) for t in sp.split(";")[1:]) >= 8)
+        ctx.coverage["token_sets_with_8_or_more_one_character_tokens"] = big
+        ctx.oblige("cover:some-generated-lexers-use-ADVANCE_MAP", big > 0,
+                   "%d token sets with >= 8 one-character tokens; parser.c text: %d lex states in %d token sets use ADVANCE_MAP" % (big, amap_states, amap_sets))
     ctx.oblige("gen:every-well-formed-token-set-is-accepted", rejected_sets == 0, "%d sets rejected" % rejected_sets)
     ctx.coverage.update({
         "evaluations": tot["strings"], "distinct_nontrivial": tot["nontrivial"],
@@ -107,6 +122,7 @@ def run(ctx):
                 "(thorough) over the 8-symbol alphabet, random strings one longer, random strings of 6-40 symbols with spaces; "
                 "non-trivial := at least two different tokens match a prefix at the first token position (counted per string)",
         "samples": samples, "token_sets": nsets, "token_sets_with_nontrivial_strings": len(distinct), "token_sets_with_word": word_sets,
+        "lex_states_using_ADVANCE_MAP": amap_states, "token_sets_whose_lexer_uses_ADVANCE_MAP": amap_sets,
         "token_sets_with_a_token_that_begins_with_an_extras_character": overlap_sets, "strings_on_such_sets": tot["overlap"],
         "strings_where_separator_aware_model_equals_skipExtras_lexScan": tot["sepsame"],
         "token_sets_with_unclassified_tokens": unclassified_sets, "token_sets_skipped": skipped_sets,
